@@ -184,9 +184,13 @@ class Program:
                         self.trait_impl_items.setdefault(tu, []).append((ent, iu))
                 self.impls.append(ent)
         self.traits = {}
+        self.decl_args = {}  # trait method uid -> declared parameter names (self included)
         for c in self.crates.values():
             for tr in c.traits:
                 d = c.defs[tr["d"]]
+                for it in tr["items"]:
+                    if "args" in it:
+                        self.decl_args[c.defs[it["d"]]["u"]] = it["args"]
                 self.traits[d["u"]] = {
                     "uid": d["u"],
                     "crate": c.name,
